@@ -5,6 +5,7 @@ import sys
 import os
 import json
 import argparse
+import re
 from pel.datastream import DataStream
 from collections import OrderedDict
 from pel.peltool.private_header import PrivateHeader
@@ -180,14 +181,21 @@ def buildOutput(sections: list, out: OrderedDict):
             counts[name][1] = modifier + 1
 
 
+# A '"key": value' line of json.dumps(indent=...) output, up to and including
+# the '":' that closes the key.  The key is a JSON string, so any quote inside
+# it is escaped with a backslash.
+KEY_PREFIX_RE = re.compile(r' *"(?:[^"\\]|\\.)*":')
+
+
 def prettyPrint(Mdata: str, desiredSpace: int = 34) -> str:
     # After index of these 2 characters ":  need to add desired space.
     CHARACTER_SPACE = 2
     lines = Mdata.split("\n")
     for i in range(len(lines)):
         line = lines[i]
-        if "\":" in line and "{" not in line:
-            ind = line.index("\":")
+        key = KEY_PREFIX_RE.match(line)
+        if key and "{" not in line:
+            ind = key.end() - CHARACTER_SPACE
             spaces = (desiredSpace - ind) * " "    # Calculating spaces needed to add to get the desired spacing.
             ind += CHARACTER_SPACE
             lines[i] = line[:ind] + spaces + line[ind:]
